@@ -37,9 +37,9 @@ PROPS["C04"] = {
             "one body field sits on a boundary value",
     "assumptions": ["reference body/digest in harness/common/refvaa.go written from the statement", "go-ethereum keccak/ecrecover trusted", "contract side = interpreter of Messages.sol parseVM read steps and of governance.ral parseAndVerifyVAA as extracted from the current tree"],
     "units": [
-        U("TestVerif_C04_Digest", "./pkg/vaa", R(40000), R(200000, shards=16, timeout=900)),
-        U("TestVerif_C04_Processor", "./pkg/processor", R(1500), R(10000, shards=16, timeout=900)),
-        U("TestVerif_C04_Contracts", "./pkg/vaa", R(1500), R(10000, shards=16, timeout=900)),
+        U("TestVerif_C04_Digest", "./pkg/vaa", R(40000), R(800000, shards=16, timeout=1500)),
+        U("TestVerif_C04_Processor", "./pkg/processor", R(1500), R(40000, shards=16, timeout=1500)),
+        U("TestVerif_C04_Contracts", "./pkg/vaa", R(1500), R(40000, shards=16, timeout=1500)),
     ],
     "pre": lambda work: extract_contracts(work),
 }
@@ -51,7 +51,7 @@ PROPS["C06"] = {
     "assumptions": ["reference verifier in harness/common/refvaa.go; trusted: go-ethereum Ecrecover/Keccak256",
                     "'no guardian counted twice' is read as: recovered signer addresses pairwise distinct (matters only for lists with repeated addresses)"],
     "units": [
-        U("TestVerif_C06_Verify", "./pkg/vaa", R(4000), R(25000, shards=16, timeout=900)),
+        U("TestVerif_C06_Verify", "./pkg/vaa", R(4000), R(200000, shards=16, timeout=1500)),
     ],
 }
 
@@ -63,15 +63,15 @@ PROPS["C01"] = {
             "quorum-1, previous set, wrong order, duplicate signer, outsider, garbage, other subset for a stored id), injections, "
             "cleanup ticks; non-trivial = at least one VAA was stored or broadcast in the case",
     "assumptions": ["independent verifier refvaa (go-ethereum Ecrecover/Keccak trusted)", "handlers are called directly in the order Processor.Run would call them; the harness owns loopback timing"],
-    "units": [U("TestVerif_C01_Safety", PROC, R(2500), R(20000, shards=16, timeout=1200))],
+    "units": [U("TestVerif_C01_Safety", PROC, R(2500), R(80000, shards=16, timeout=1500))],
 }
 PROPS["C02"] = {
     "rule": "one multiset of events (local observation, own signature, valid observations from members, duplicates, invalid traffic, "
             "optional set update / peer VAA) executed in two generated orders and judged step by step by a reference model written "
             "from the statement, plus broad single-order histories; non-trivial = quorum reached with remote signatures involved",
     "assumptions": ["reference model in harness/node/pkg/processor/run_test.go", "publication is expected at the first *accepted observation* step at which observed && quorum holds"],
-    "units": [U("TestVerif_C02_Model", PROC, R(1500), R(10000, shards=16, timeout=1200)),
-              U("TestVerif_C02_Histories", PROC, R(1500), R(10000, shards=16, timeout=1200))],
+    "units": [U("TestVerif_C02_Model", PROC, R(1500), R(30000, shards=16, timeout=1500)),
+              U("TestVerif_C02_Histories", PROC, R(1500), R(30000, shards=16, timeout=1500))],
 }
 PROPS["C03"] = {
     "rule": "reachable processor states (C01 generator without cleanup) in which every delivered observation is classified by an "
@@ -82,8 +82,8 @@ PROPS["C03"] = {
     "assumptions": ["accept predicate: 65-byte signature recovers over the carried 32-byte hash to the claimed 20-byte address, which is in the applicable set (entry snapshot if the node observed the digest, else current set)",
                     "heartbeats / requests: prefix+body >= 34 bytes, signature over keccak(own prefix || body) recovers to the claimed address (BytesToAddress of the field), which is in the set passed in, body decodes; at the 15-node cap only the bound is asserted",
                     "the libp2p Run loop is not started; the two verifiers are the only state-changing entry points it calls for these message types"],
-    "units": [U("TestVerif_C03_Observations", PROC, R(2500), R(20000, shards=16, timeout=1200)),
-              U("TestVerif_C03_P2P", "./pkg/p2p", R(3000), R(30000, shards=16, timeout=1200)),
+    "units": [U("TestVerif_C03_Observations", PROC, R(2500), R(50000, shards=16, timeout=1500)),
+              U("TestVerif_C03_P2P", "./pkg/p2p", R(3000), R(80000, shards=16, timeout=1500)),
               U("TestVerif_C03_HeartbeatTable", "./pkg/p2p", R(300), R(3000, shards=4, timeout=1200))],
 }
 
@@ -95,8 +95,8 @@ PROPS["C13"] = {
             "injection before a set, or a cleanup tick with an entry older than 30 s",
     "assumptions": ["inputs are restricted to what producers can emit: non-nil messages with arbitrary (also nil) fields",
                     "the 30 s cleanup ticker of the Run loop is not awaited; cleanup is exercised by direct calls"],
-    "units": [U("TestVerif_C13_Direct", PROC, R(3000), R(20000, shards=16, timeout=1200)),
-              U("TestVerif_C13_RunLoop", PROC, R(300), R(3000, shards=16, timeout=1200))],
+    "units": [U("TestVerif_C13_Direct", PROC, R(3000), R(80000, shards=16, timeout=1500)),
+              U("TestVerif_C13_RunLoop", PROC, R(300), R(12000, shards=16, timeout=1500))],
 }
 
 PROPS["C14"] = {
@@ -106,7 +106,7 @@ PROPS["C14"] = {
             "non-trivial = at least one retry and at least one expiry in the case",
     "assumptions": ["virtual time = shifting firstObserved/lastRetry of every entry (the only inputs the routine derives ages from); ages are kept 0.5 s off the whole-second thresholds and cases whose real execution could blur that are inconclusive",
                     "retry budget 14400 is the value at the pinned commit", "'about' is read as: lower bounds 4 min (parked) / 50 min (completed), upper bound two ticks after the threshold"],
-    "units": [U("TestVerif_C14_Schedule", PROC, R(4000), R(20000, shards=16, timeout=1200)),
+    "units": [U("TestVerif_C14_Schedule", PROC, R(4000), R(100000, shards=16, timeout=1500)),
               U("TestVerif_C14_Budget", PROC, {"checks": 0, "shards": 1, "timeout": 600}, {"checks": 0, "shards": 1, "timeout": 600}, kind="plain")],
 }
 
@@ -116,8 +116,8 @@ PROPS["C12"] = {
             "near misses, store API and public RPC), gap scans, batch and governance-batch queries, all compared with a Go map; non-trivial = the "
             "store holds two streams of one emitter whose chain ids are decimal prefixes of each other",
     "assumptions": ["firstSeq == 0 is pinned by the repository's own test and taken as specified", "RPC handlers are called directly (no gRPC transport)"],
-    "units": [U("TestVerif_C12_Store", "./pkg/publicrpc", R(2500), R(15000, shards=16, timeout=1200)),
-              U("TestVerif_C12_FindMissing", "./cmd/guardiand", R(1500), R(10000, shards=8, timeout=1200))],
+    "units": [U("TestVerif_C12_Store", "./pkg/publicrpc", R(2500), R(9000, shards=16, timeout=1500)),
+              U("TestVerif_C12_FindMissing", "./cmd/guardiand", R(1500), R(8000, shards=16, timeout=1500))],
 }
 
 def extract_contracts(work):
@@ -140,7 +140,7 @@ PROPS["C07"] = {
                     "explorer-backend evaluates the cached node module's CalculateQuorum; checked under C19"],
     "pre": extract_contracts,
     "units": [U("TestVerif_C07_Table", PROC, PLAIN, PLAIN, kind="plain"),
-              U("TestVerif_C07_ContractsAccept", PROC, R(800), R(6000, shards=16, timeout=1200)),
+              U("TestVerif_C07_ContractsAccept", PROC, R(800), R(30000, shards=16, timeout=1500)),
               U("TestVerif_C07_LargeN", PROC, R(20000), R(500000, shards=4, timeout=600))],
 }
 
@@ -153,7 +153,7 @@ PROPS["C16"] = {
             "non-trivial = a cycle killed with at least one acknowledgement and at least one write in flight",
     "assumptions": ["SIGKILL of the process (page cache survives): the quantifier of the property, not power loss", "kill instants are sampled in real time, not enumerated",
                     "in-flight = attempted after the last acknowledgement of that id"],
-    "units": [U("TestVerif_C16_KillCycles", "./pkg/db", R(12, shards=4, shrinktime="20s", timeout=600), R(150, shards=16, shrinktime="60s", timeout=1500), replay_tries=3),
+    "units": [U("TestVerif_C16_KillCycles", "./pkg/db", R(12, shards=4, shrinktime="20s", timeout=600), R(500, shards=16, shrinktime="60s", timeout=1800), replay_tries=3),
               U("TestVerif_C16_CrashDuringOpen", "./pkg/db", PLAIN, PLAIN, kind="plain")],
 }
 
@@ -164,8 +164,8 @@ PROPS["C17"] = {
             "PostObservationRequest on queues of every fill level; non-trivial = at least one suppressed duplicate and one re-forward after the window",
     "assumptions": ["a request for an unknown chain is used as a barrier (returns when the dispatcher is back in select); clock advances are split into <= 6 min steps so no purge tick is coalesced",
                     "a request between 11 and 18 minutes after the last forward may go either way", "a suspected miss after the window is re-executed with a 60-barrier settle before it counts"],
-    "units": [U("TestVerif_C17_Dispatcher", GD, R(400), R(6000, shards=16, timeout=1500)),
-              U("TestVerif_C17_Post", GD, R(2000), R(20000, shards=4, timeout=600))],
+    "units": [U("TestVerif_C17_Dispatcher", GD, R(400), R(24000, shards=16, timeout=1800)),
+              U("TestVerif_C17_Post", GD, R(2000), R(80000, shards=4, timeout=900))],
 }
 
 PROPS["C15"] = {
@@ -177,8 +177,8 @@ PROPS["C15"] = {
     "assumptions": ["contract side = interpreter of governance.ral / token_bridge_governance.ral / token_bridge_factory.ral functions extracted from the current tree",
                     "contract aborts with a semantic error code (empty sequence list, own chain, state-hash mismatch) are not layout failures", "current set index 2^32-1 excluded (no successor index exists)"],
     "pre": extract_contracts,
-    "units": [U("TestVerif_C15_Conversions", GD, R(6000), R(40000, shards=16, timeout=1500)),
-              U("TestVerif_C15_Inject", GD, R(1500), R(10000, shards=8, timeout=1500))],
+    "units": [U("TestVerif_C15_Conversions", GD, R(6000), R(400000, shards=16, timeout=1500)),
+              U("TestVerif_C15_Inject", GD, R(1500), R(100000, shards=16, timeout=1500))],
 }
 
 PROPS["C18"] = {
@@ -211,7 +211,7 @@ PROPS["C19"] = {
             "or a lookup run with at least one append",
     "assumptions": ["independent verifier refvaa; the explorer is built against the node module version pinned in its go.mod, as the repository builds it",
                     "the chain RPC is an unreachable unix path, so a VAA naming an unknown set can only be refused", "duplicate suppression itself (ristretto, asynchronous) is not asserted"],
-    "units": [U("TestVerif_C19_Gate", "./processor", R(1500), R(10000, shards=16, timeout=1200), module=EX),
+    "units": [U("TestVerif_C19_Gate", "./processor", R(1500), R(40000, shards=16, timeout=1500), module=EX),
               U("TestVerif_C19_Lookup", "./guardiansets", R(150, shards=2, timeout=900), R(3000, shards=16, timeout=1500), module=EX, race=True, crash_is_violation=True, replay_tries=5)],
 }
 PROPS["C07"]["units"].append(U("TestVerif_C07_ExplorerQuorum", "./processor", PLAIN, PLAIN, kind="plain", module=EX))
@@ -224,9 +224,9 @@ PROPS["C11"] = {
             "token_bridge.ral attestToken + governance.ral publishWormholeMessage from the current tree and decoded by the node; non-trivial = a field on a listed boundary",
     "assumptions": ["a numeric field is whatever Go's base-10 integer parser accepts (incl. a sign); whether it fits is decided on its value", "contract side = interpreter of the Ralph sources of the current tree; event fields are reported in declaration order"],
     "pre": extract_contracts,
-    "units": [U("TestVerif_C11_Fields", ALPH, R(60000), R(400000, shards=16, timeout=900)),
+    "units": [U("TestVerif_C11_Fields", ALPH, R(60000), R(3000000, shards=16, timeout=1500)),
               U("TestVerif_C11_Conversions", ALPH, R(20000), R(200000, shards=8, timeout=900)),
-              U("TestVerif_C11_Attest", ALPH, R(3000), R(30000, shards=16, timeout=900))],
+              U("TestVerif_C11_Attest", ALPH, R(3000), R(200000, shards=16, timeout=1500))],
 }
 
 PROPS["C10"] = {
@@ -237,7 +237,7 @@ PROPS["C10"] = {
     "assumptions": ["safety is judged against the server-side response log (last receipt answer and highest head served before the message arrived)",
                     "exactly-once is judged only for cases without re-observation requests and without watcher restarts; a message may be absent only if the node's last answer for its receipt was an error",
                     "a step that does not settle within 3 s makes the case inconclusive", "faults are confined to receipt lookups and fewer than three consecutive head polls (more ends Run by design)"],
-    "units": [U("TestVerif_C10_Watcher", "./pkg/ethereum", R(300, shards=8, timeout=900, shrinktime="60s"), R(4000, shards=16, timeout=1500, shrinktime="120s"), replay_tries=3)],
+    "units": [U("TestVerif_C10_Watcher", "./pkg/ethereum", R(300, shards=8, timeout=900, shrinktime="60s"), R(12000, shards=16, timeout=1800, shrinktime="120s"), replay_tries=3)],
 }
 
 _ALPH_RULE = ("the real Watcher.Run under a supervisor against a simulated Alephium node (http.RoundTripper), 1 ms poll interval, stepped one operation at a time: "
@@ -249,14 +249,14 @@ PROPS["C08"] = {
     "rule": _ALPH_RULE + ", re-observation requests and node API errors on any endpoint; non-trivial = hostile / orphaned / look-alike events present and at least one message forwarded",
     "assumptions": ["safety is judged against the simulator's ground truth and its response log (last main-chain and height answers before the message arrived)",
                     "block timestamps are kept 60 s away from every wall-clock threshold", "field fidelity is C11's job"],
-    "units": [U("TestVerif_C08_Watcher", ALPH, R(200, shards=8, timeout=900, shrinktime="60s"), R(3000, shards=16, timeout=1500, shrinktime="120s"), replay_tries=3, crash_is_violation=True)],
+    "units": [U("TestVerif_C08_Watcher", ALPH, R(200, shards=8, timeout=900, shrinktime="60s"), R(8000, shards=16, timeout=1800, shrinktime="120s"), replay_tries=3, crash_is_violation=True)],
 }
 PROPS["C09"] = {
     "rule": _ALPH_RULE + "; no injected faults; after the script the chain height rises by 260 and every well-formed token-bridge message in a main-chain block must have been forwarded exactly once by the polling "
             "path; at no time more than 200 page requests without a count request, no exit of Run, no process crash; non-trivial = hostile events or an append between count and page request, and at least one message forwarded",
     "assumptions": ["'eventually' is replaced by a bound: three further poll rounds after the closing height jump", "events that exist before the watcher's first count request are out of scope (it starts from the current count)",
                     "API faults make Run exit by design and are exercised under C08's safety oracle only"],
-    "units": [U("TestVerif_C09_Watcher", ALPH, R(200, shards=8, timeout=900, shrinktime="60s"), R(3000, shards=16, timeout=1500, shrinktime="120s"), replay_tries=3, crash_is_violation=True)],
+    "units": [U("TestVerif_C09_Watcher", ALPH, R(200, shards=8, timeout=900, shrinktime="60s"), R(10000, shards=16, timeout=1800, shrinktime="120s"), replay_tries=3, crash_is_violation=True)],
 }
 
 def setup():
